@@ -178,6 +178,26 @@ def rule_w2(ctx, F):
     ctx.floor("stores to Lexer.token_start_position", n, 4)
 
 
+def rule_progress(ctx, F):
+    """P2: an external token that ends *at or before* the position where lexing started made no progress.  At a seam
+    between two included ranges the lexer is moved to the next range's start and mark_end pulls a zero-width token's end
+    back to the previous range's end — strictly before the start position.  ts_parser__lex accepts an external token only
+    if it ends after that position, or the scanner's state changed, or it is one of the empty tokens that are allowed
+    (not in error recovery, the stack advanced since the last error, not an extra); otherwise the ranged parse loops for
+    ever where the parse of the concatenation terminates."""
+    fn = ctx.need_fn(F, "ts_parser__lex", "P2")
+    if not fn:
+        return
+    acc = [pt for pt, n in find(fn, "found_external_token = 1")]
+    if not acc:
+        ctx.bad("P2", "ts_parser__lex:external-token-progress", "ts_parser__lex no longer records an accepted external token")
+        return
+    ctx.gate("P2", fn, acc, [("an accepted external token made progress, changed the scanner state, or is an allowed empty token",
+                             [("self->lexer.token_end_position.bytes <= current_position.bytes", False), ("self->lexer.token_end_position.bytes > current_position.bytes", True),
+                              ("external_scanner_state_changed", True), ("token_is_extra", False)])],
+             accept_desc="accepting the external scanner's token")
+
+
 def run(ctx):
     for cfg in configs(ctx):
         ctx.config = cfg
@@ -187,6 +207,7 @@ def run(ctx):
         rule_w1(ctx, F)
         rule_p1(ctx, F)
         rule_w2(ctx, F)
+        rule_progress(ctx, F)
         # the included-range difference that invalidates reuse of newly excluded / included text (shared with C04)
         import C04
         C04.rule_p1(ctx, F)
